@@ -1,265 +1,2 @@
--- REGENERATED by /verif/harness/cmd/gen_c06 from the /repo working tree on every run. Do not edit.
-namespace SSV.Gen.C06
-/-- socks5.AtypIPv4 -/
-abbrev AtypIPv4 : Nat := 1
-/-- socks5.AtypDomainName -/
-abbrev AtypDomainName : Nat := 3
-/-- socks5.AtypIPv6 -/
-abbrev AtypIPv6 : Nat := 4
-/-- socks5.IPv4AddrLen -/
-abbrev IPv4AddrLen : Nat := 7
-/-- socks5.IPv6AddrLen -/
-abbrev IPv6AddrLen : Nat := 19
-/-- socks5.MaxAddrLen -/
-abbrev MaxAddrLen : Nat := 259
-/-- socks5.Version -/
-abbrev Version : Nat := 5
-/-- socks5.MethodNoAuthenticationRequired -/
-abbrev MethodNoAuthenticationRequired : Nat := 0
-/-- socks5.MethodUsernamePassword -/
-abbrev MethodUsernamePassword : Nat := 2
-/-- socks5.MethodNoAcceptable -/
-abbrev MethodNoAcceptable : Nat := 255
-/-- socks5.CmdConnect -/
-abbrev CmdConnect : Nat := 1
-/-- socks5.CmdBind -/
-abbrev CmdBind : Nat := 2
-/-- socks5.CmdUDPAssociate -/
-abbrev CmdUDPAssociate : Nat := 3
-/-- socks5.ReplySucceeded -/
-abbrev ReplySucceeded : Nat := 0
-/-- socks5.ReplyCommandNotSupported -/
-abbrev ReplyCommandNotSupported : Nat := 7
-/-- socks5.UsernamePasswordAuthVersion -/
-abbrev UsernamePasswordAuthVersion : Nat := 1
-/-- ss2022.HeaderTypeClientStream -/
-abbrev HeaderTypeClientStream : Nat := 0
-/-- ss2022.HeaderTypeServerStream -/
-abbrev HeaderTypeServerStream : Nat := 1
-/-- ss2022.HeaderTypeClientPacket -/
-abbrev HeaderTypeClientPacket : Nat := 0
-/-- ss2022.HeaderTypeServerPacket -/
-abbrev HeaderTypeServerPacket : Nat := 1
-/-- ss2022.MaxPaddingLength -/
-abbrev MaxPaddingLength : Nat := 900
-/-- ss2022.IdentityHeaderLength -/
-abbrev IdentityHeaderLength : Nat := 16
-/-- ss2022.TCPRequestFixedLengthHeaderLength -/
-abbrev TCPRequestFixedLengthHeaderLength : Nat := 11
-/-- ss2022.UDPSeparateHeaderLength -/
-abbrev UDPSeparateHeaderLength : Nat := 16
-/-- ss2022.UDPClientMessageHeaderFixedLength -/
-abbrev UDPClientMessageHeaderFixedLength : Nat := 11
-/-- ss2022.UDPServerMessageHeaderFixedLength -/
-abbrev UDPServerMessageHeaderFixedLength : Nat := 19
-/-- ss2022.MaxEpochDiff -/
-abbrev MaxEpochDiff : Nat := 30
-/-- ss2022.tagSize -/
-abbrev tagSize : Nat := 16
-/-- ss2022.nonceSize -/
-abbrev nonceSize : Nat := 12
-/-- ss2022.streamMaxPayloadSize -/
-abbrev streamMaxPayloadSize : Nat := 65535
-/-- ss2022.streamReadMinBufferSize -/
-abbrev streamReadMinBufferSize : Nat := 65551
-/-- ss2022.streamWriteBufferSize -/
-abbrev streamWriteBufferSize : Nat := 65569
-/-- panic-relevant fingerprint of socks5.AddrPortFromSlice -/
-def AddrPortFromSlice_shape : List String := ["if len(b) < 1+4+2 => return", "b[0]", "conv (*[4]byte)", "b[1:]", "call Uint16", "b[1+4:]", "if len(b) < 1+16+2 => return", "b[0]", "conv (*[16]byte)", "b[1:]", "call Uint16", "b[1+16:]", "b[0]"]
-/-- socks5.AddrPortFromSlice: constant of the 0-th `len(x) < N => return` guard -/
-abbrev AddrPortFromSlice_lenGuard0 : Nat := 7
-/-- socks5.AddrPortFromSlice: constant of the 1-th `len(x) < N => return` guard -/
-abbrev AddrPortFromSlice_lenGuard1 : Nat := 19
-/-- panic-relevant fingerprint of socks5.ConnAddrFromSlice -/
-def ConnAddrFromSlice_shape : List String := ["if len(b) < 2 => return", "b[0]", "b[1]", "if len(b) < portEnd => return", "b[0]", "b[2:domainEnd]", "call Uint16", "b[domainEnd:]", "if len(b) < 1+4+2 => return", "b[0]", "conv (*[4]byte)", "b[1:]", "call Uint16", "b[1+4:]", "if len(b) < 1+16+2 => return", "b[0]", "conv (*[16]byte)", "b[1:]", "call Uint16", "b[1+16:]", "b[0]"]
-/-- socks5.ConnAddrFromSlice: constant of the 0-th `len(x) < N => return` guard -/
-abbrev ConnAddrFromSlice_lenGuard0 : Nat := 2
-/-- socks5.ConnAddrFromSlice: constant of the 1-th `len(x) < N => return` guard -/
-abbrev ConnAddrFromSlice_lenGuard1 : Nat := 7
-/-- socks5.ConnAddrFromSlice: constant of the 2-th `len(x) < N => return` guard -/
-abbrev ConnAddrFromSlice_lenGuard2 : Nat := 19
-/-- panic-relevant fingerprint of socks5.(*DomainCache).ConnAddrFromSlice -/
-def DomainCacheConnAddrFromSlice_shape : List String := ["if len(b) < 2 => return", "b[0]", "b[1]", "if len(b) < portEnd => return", "b[0]", "b[2:domainEnd]", "call Uint16", "b[domainEnd:]", "if len(b) < 1+4+2 => return", "b[0]", "conv (*[4]byte)", "b[1 : 1+4]", "call Uint16", "b[1+4:]", "if len(b) < 1+16+2 => return", "b[0]", "conv (*[16]byte)", "b[1 : 1+16]", "call Uint16", "b[1+16:]", "b[0]"]
-/-- socks5.(*DomainCache).ConnAddrFromSlice: constant of the 0-th `len(x) < N => return` guard -/
-abbrev DomainCacheConnAddrFromSlice_lenGuard0 : Nat := 2
-/-- socks5.(*DomainCache).ConnAddrFromSlice: constant of the 1-th `len(x) < N => return` guard -/
-abbrev DomainCacheConnAddrFromSlice_lenGuard1 : Nat := 7
-/-- socks5.(*DomainCache).ConnAddrFromSlice: constant of the 2-th `len(x) < N => return` guard -/
-abbrev DomainCacheConnAddrFromSlice_lenGuard2 : Nat := 19
-/-- panic-relevant fingerprint of socks5.AppendFromReader -/
-def AppendFromReader_shape : List String := ["slices.Grow(b, 2)[:bLen+2]", "b[bLen:]", "readBuf[0]", "readBuf[1]", "readBuf[0]", "slices.Grow(b, readBufSize)[:bLen+readBufSize]", "b[bLen:]"]
-/-- panic-relevant fingerprint of socks5.ConnAddrFromReader -/
-def ConnAddrFromReader_shape : List String := ["b[0]", "b[1]", "call unsafe.String", "call unsafe.SliceData", "b[1]", "call Uint16", "b1[b[1]:]", "b[1]", "b1[0]", "b[1]", "b1[1:]", "conv (*[4]byte)", "call Uint16", "b1[4:]", "b1[0]", "b[1]", "b1[1:]", "conv (*[16]byte)", "call Uint16", "b1[16:]", "b[0]"]
-/-- panic-relevant fingerprint of socks5.serverHandleMethodSelection -/
-def serverHandleMethodSelection_shape : List String := ["if len(b) < 1+1+255 => return", "panic", "b[:3]", "b[0]", "b[0]", "b[1]", "b[2]", "b[3 : 3+nmethods-1]", "b[2 : 2+nmethods]", "b[1]", "b[:2]", "b[1]", "b[:2]"]
-/-- socks5.serverHandleMethodSelection: constant of the 0-th `len(x) < N => return` guard -/
-abbrev serverHandleMethodSelection_lenGuard0 : Nat := 257
-/-- panic-relevant fingerprint of socks5.serverHandleUsernamePassword -/
-def serverHandleUsernamePassword_shape : List String := ["if len(b) < 1+1+255+1 => return", "panic", "b[:4]", "b[0]", "b[0]", "b[1]", "if ulen > 1", "b[4 : 4+ulen-1]", "b[2:plenIndex]", "b[plenIndex]", "b[2 : 2+plen]", "b[1]", "b[:2]"]
-/-- socks5.serverHandleUsernamePassword: constant of the 0-th `len(x) < N => return` guard -/
-abbrev serverHandleUsernamePassword_lenGuard0 : Nat := 258
-/-- panic-relevant fingerprint of socks5.serverHandleRequest -/
-def serverHandleRequest_shape : List String := ["if len(b) < 3+MaxAddrLen => return", "panic", "b[:5]", "b[0]", "b[0]", "b[3:3]", "b[3:5]", "b[1]", "b[1]", "b[:3]", "b[:1]"]
-/-- socks5.serverHandleRequest: constant of the 0-th `len(x) < N => return` guard -/
-abbrev serverHandleRequest_lenGuard0 : Nat := 262
-/-- panic-relevant fingerprint of socks5.clientNegotiateAuthMethod -/
-def clientNegotiateAuthMethod_shape : List String := ["if len(b) < 3 => return", "panic", "b[0]", "b[1]", "b[2]", "b[:3]", "b[:2]", "b[0]", "b[0]", "b[1]", "b[1]"]
-/-- socks5.clientNegotiateAuthMethod: constant of the 0-th `len(x) < N => return` guard -/
-abbrev clientNegotiateAuthMethod_lenGuard0 : Nat := 3
-/-- panic-relevant fingerprint of socks5.clientDoUsernamePasswordAuth -/
-def clientDoUsernamePasswordAuth_shape : List String := ["if len(b) < 2 => return", "panic", "b[:2]", "b[0]", "b[0]", "b[1]"]
-/-- socks5.clientDoUsernamePasswordAuth: constant of the 0-th `len(x) < N => return` guard -/
-abbrev clientDoUsernamePasswordAuth_lenGuard0 : Nat := 2
-/-- panic-relevant fingerprint of socks5.clientDoRequest -/
-def clientDoRequest_shape : List String := ["if len(b) < 3+MaxAddrLen => return", "panic", "b[0]", "b[1]", "b[2]", "b[3:]", "b[:3+n]", "b[:5]", "b[0]", "b[0]", "b[3:3]", "b[3:5]", "b[1]", "b[1]"]
-/-- socks5.clientDoRequest: constant of the 0-th `len(x) < N => return` guard -/
-abbrev clientDoRequest_lenGuard0 : Nat := 262
-/-- panic-relevant fingerprint of socks5.replyWithStatus -/
-def replyWithStatus_shape : List String := ["b[:replyLen]", "reply[0]", "reply[1]", "reply[2]", "conv (*[IPv4AddrLen]byte)", "reply[3:]"]
-/-- panic-relevant fingerprint of socks5.ValidatePacketHeader -/
-def ValidatePacketHeader_shape : List String := ["b[2]"]
-/-- panic-relevant fingerprint of conn.AddrFromDomainPort -/
-def AddrFromDomainPort_shape : List String := ["if len(domain) == 0 || len(domain) > 255 => return", "call unsafe.StringData"]
-/-- panic-relevant fingerprint of conn.(Addr).IP -/
-def AddrIP_shape : List String := ["panic"]
-/-- panic-relevant fingerprint of conn.(Addr).Domain -/
-def AddrDomain_shape : List String := ["panic"]
-/-- panic-relevant fingerprint of conn.(Addr).IPPort -/
-def AddrIPPort_shape : List String := ["panic"]
-/-- panic-relevant fingerprint of ss2022.ValidateUnixEpochTimestamp -/
-def ValidateUnixEpochTimestamp_shape : List String := ["call Uint64", "if diff < -MaxEpochDiff || diff > MaxEpochDiff => return"]
-/-- panic-relevant fingerprint of ss2022.ParseTCPRequestFixedLengthHeader -/
-def ParseTCPRequestFixedLengthHeader_shape : List String := ["b[0]", "b[0]", "b[1:]", "call Uint16", "b[1+8:]"]
-/-- panic-relevant fingerprint of ss2022.ParseTCPRequestVariableLengthHeader -/
-def ParseTCPRequestVariableLengthHeader_shape : List String := ["b[n:]", "if len(b) <= 2 => return", "call Uint16", "if 2+paddingLen > len(b) => return", "b[2+paddingLen:]"]
-/-- panic-relevant fingerprint of ss2022.ParseTCPResponseHeader -/
-def ParseTCPResponseHeader_shape : List String := ["b[0]", "b[0]", "b[1 : 1+8]", "b[1+8 : 1+8+len(requestSalt)]", "call Uint16", "b[1+8+len(requestSalt):]"]
-/-- panic-relevant fingerprint of ss2022.ParseSessionIDAndPacketID -/
-def ParseSessionIDAndPacketID_shape : List String := ["call Uint64", "call Uint64", "b[8:]"]
-/-- panic-relevant fingerprint of ss2022.ParseUDPClientMessageHeader -/
-def ParseUDPClientMessageHeader_shape : List String := ["if len(b) < UDPClientMessageHeaderFixedLength => return", "b[0]", "b[0]", "b[1 : 1+8]", "call Uint16", "b[1+8:]", "if payloadStart > len(b) => return", "b[payloadStart:]"]
-/-- ss2022.ParseUDPClientMessageHeader: constant of the 0-th `len(x) < N => return` guard -/
-abbrev ParseUDPClientMessageHeader_lenGuard0 : Nat := 11
-/-- panic-relevant fingerprint of ss2022.ParseUDPServerMessageHeader -/
-def ParseUDPServerMessageHeader_shape : List String := ["if len(b) < UDPServerMessageHeaderFixedLength => return", "b[0]", "b[0]", "b[1 : 1+8]", "call Uint64", "b[1+8:]", "call Uint16", "b[1+8+8:]", "if payloadStart > len(b) => return", "b[payloadStart:]"]
-/-- ss2022.ParseUDPServerMessageHeader: constant of the 0-th `len(x) < N => return` guard -/
-abbrev ParseUDPServerMessageHeader_lenGuard0 : Nat := 19
-/-- panic-relevant fingerprint of ss2022.(*UDPServer).SessionInfo -/
-def UDPServerSessionInfo_shape : List String := ["if len(b) < UDPSeparateHeaderLength => return", "call Uint64"]
-/-- ss2022.(*UDPServer).SessionInfo: constant of the 0-th `len(x) < N => return` guard -/
-abbrev UDPServerSessionInfo_lenGuard0 : Nat := 16
-/-- panic-relevant fingerprint of ss2022.(*UDPServer).NewUnpacker -/
-def UDPServerNewUnpacker_shape : List String := ["if len(b) < nonAEADHeaderLen => return", "b[:UDPSeparateHeaderLength]", "b[UDPSeparateHeaderLength:nonAEADHeaderLen]", "conv (*[IdentityHeaderLength]byte)", "b[:8]"]
-/-- panic-relevant fingerprint of ss2022.(*ShadowPacketServerUnpacker).UnpackInPlace -/
-def ShadowPacketServerUnpack_shape : List String := ["if packetLen < p.nonAEADHeaderLen+p.aead.Overhead() => return", "b[packetStart : packetStart+UDPSeparateHeaderLength]", "separateHeader[4:16]", "b[messageHeaderStart : packetStart+packetLen]", "call Uint64", "separateHeader[8:]", "ciphertext[:0]", "call .MustAdd"]
-/-- panic-relevant fingerprint of ss2022.(*ShadowPacketClientUnpacker).UnpackInPlace -/
-def ShadowPacketClientUnpack_shape : List String := ["if packetLen < UDPSeparateHeaderLength+16 => return", "b[packetStart:messageHeaderStart]", "separateHeader[4:16]", "b[messageHeaderStart : packetStart+packetLen]", "call Uint64", "call Uint64", "separateHeader[8:]", "case time.Since(p.oldServerSessionLastSeenTime) < time.Minute", "separateHeader[:8]", "ciphertext[:0]", "call .MustAdd"]
-/-- panic-relevant fingerprint of ss2022.(*ShadowStreamConn).read -/
-def ShadowStreamConnRead_shape : List String := ["if cap(b) < streamReadMinBufferSize => return", "panic"]
-/-- panic-relevant fingerprint of ss2022.(*ShadowStreamConn).readChunk -/
-def ShadowStreamConnReadChunk_shape : List String := ["b[:2+tagSize]", "call Uint16", "b[:length+tagSize]"]
-/-- panic-relevant fingerprint of ss2022.(*StreamServer).HandleStream -/
-def StreamServerHandleStream_shape : List String := ["if bufferLen <= cap(writeBuf)", "writeBuf[:bufferLen]", "b[:reservedStart]", "if n > 0 && s.unsafeFallbackAddr.IsValid() => return", "readBuf[:n]", "b[:urspLen]", "b[urspLen:identityHeaderStart]", "b[fixedLengthHeaderStart:reservedStart]", "b[reservedStart:]", "b[identityHeaderStart:fixedLengthHeaderStart]", "conv [IdentityHeaderLength]byte", "if bufferLen <= cap(writeBuf)", "writeBuf[:bufferLen]"]
-/-- panic-relevant fingerprint of ss2022.(*ShadowStreamClientConn).initRead -/
-def ShadowStreamClientInitRead_shape : List String := ["case bufferLen <= len(b)", "b[:bufferLen]", "case bufferLen <= streamReadMinBufferSize", "c.ShadowStreamConn.getReadBuf()[:bufferLen]", "hb[:urspLen]", "hb[urspLen:fixedLengthHeaderStart]", "hb[fixedLengthHeaderStart:]", "c.requestSalt[:c.requestSaltLen]"]
-/-- panic-relevant fingerprint of ss2022.readOnceExpectFull -/
-def readOnceExpectFull_shape : List String := ["if err == io.EOF && 0 < n && n < len(b) => return", "if n < len(b) => return"]
-/-- panic-relevant fingerprint of direct.(*DirectPacketServerPackUnpacker).PackInPlace -/
-def DirectServerPack_shape : List String := ["if packetLen > maxPacketLen", "call .IPPort"]
-/-- panic-relevant fingerprint of direct.(*ShadowsocksNonePacketClientUnpacker).UnpackInPlace -/
-def NoneClientUnpack_shape : List String := ["b[packetStart : packetStart+packetLen]"]
-/-- panic-relevant fingerprint of direct.(*ShadowsocksNonePacketServerUnpacker).UnpackInPlace -/
-def NoneServerUnpack_shape : List String := ["b[packetStart : packetStart+packetLen]"]
-/-- panic-relevant fingerprint of direct.(*Socks5PacketClientUnpacker).UnpackInPlace -/
-def Socks5ClientUnpack_shape : List String := ["if packetLen < 3 => return", "b[packetStart : packetStart+packetLen]", "pkt[3:]"]
-/-- panic-relevant fingerprint of direct.(*Socks5PacketServerUnpacker).UnpackInPlace -/
-def Socks5ServerUnpack_shape : List String := ["if packetLen < 3 => return", "b[packetStart : packetStart+packetLen]", "pkt[3:]"]
-/-- panic-relevant fingerprint of httpproxy.hostHeaderToAddr -/
-def hostHeaderToAddr_shape : List String := ["case len(host) == 0", "case host[0] == '[' && host[len(host)-1] == ']'", "host[0]", "host[len(host)-1]", "host[1 : len(host)-1]"]
-/-- panic-relevant fingerprint of httpproxy.serverHandleBasicAuth -/
-def serverHandleBasicAuth_shape : List String := ["header[\"Proxy-Authorization\"]", "if len(creds) > len(prefix) && (creds[0] == 'B' || creds[0] == 'b') && (creds[1] == 'a' || creds[1] == 'A') && (creds[2] == 's' || creds[2] == 'S') && (creds[3] == 'i' || creds[3] == 'I') && (creds[4] == 'c' || creds[4] == 'C') && creds[5] == ' ' => return", "creds[0]", "creds[0]", "creds[1]", "creds[1]", "creds[2]", "creds[2]", "creds[3]", "creds[3]", "creds[4]", "creds[4]", "creds[5]", "creds[len(prefix):]"]
-/-- panic-relevant fingerprint of ss2022.(*ShadowPacketClientPacker).PackInPlace -/
-def ShadowPacketClientPack_shape : List String := ["case maxPaddingLen < 0", "case maxPaddingLen > 0 && p.shouldPad(targetAddr)", "call mrand.IntN(maxPaddingLen)", "b[messageHeaderStart:payloadStart]", "b[packetStart:identityHeadersStart]", "separateHeader[4:16]", "b[messageHeaderStart : payloadStart+payloadLen]", "b[start : start+IdentityHeaderLength]", "p.eihPSKHashes[i][:]", "p.eihPSKHashes[i]", "p.eihCiphers[i]", "plaintext[:0]"]
-/-- panic-relevant fingerprint of ss2022.(*ShadowPacketServerPacker).PackInPlace -/
-def ShadowPacketServerPack_shape : List String := ["case maxPaddingLen < 0", "case maxPaddingLen > 0 && p.shouldPad(conn.AddrFromIPPort(sourceAddrPort))", "call mrand.IntN(maxPaddingLen)", "b[messageHeaderStart:payloadStart]", "b[packetStart:messageHeaderStart]", "separateHeader[4:16]", "b[messageHeaderStart : payloadStart+payloadLen]", "plaintext[:0]"]
-/-- panic-relevant fingerprint of ss2022.PutUDPClientMessageHeader -/
-def PutUDPClientMessageHeader_shape : List String := ["b[0]", "call PutUint64", "b[1:]", "call PutUint16", "b[1+8:]", "b[1+8+2+paddingLen:]"]
-/-- panic-relevant fingerprint of ss2022.PutUDPServerMessageHeader -/
-def PutUDPServerMessageHeader_shape : List String := ["b[0]", "call PutUint64", "b[1:]", "call PutUint64", "b[1+8:]", "call PutUint16", "b[1+8+8:]", "b[1+8+8+2+paddingLen:]"]
-/-- panic-relevant fingerprint of ss2022.intToUint16 -/
-def intToUint16_shape : List String := ["panic"]
-/-- panic-relevant fingerprint of ss2022.(*StreamClient).DialStream -/
-def StreamClientDialStream_shape : List String := ["case payloadLen > roomForPayload", "payload[roomForPayload:]", "payload[:roomForPayload]", "case payloadLen >= MaxPaddingLength", "case payloadLen > 0", "call mrand.IntN(MaxPaddingLength - payloadLen + 1)", "call mrand.IntN(MaxPaddingLength)", "if bufferLen <= cap(writeBuf)", "writeBuf[:bufferLen]", "b[:urspLen]", "b[urspLen:identityHeadersStart]", "b[identityHeadersStart:fixedLengthHeaderStart]", "b[fixedLengthHeaderStart:fixedLengthHeaderEnd]", "b[variableLengthHeaderStart:variableLengthHeaderEnd]", "identityHeaders[i*IdentityHeaderLength : (i+1)*IdentityHeaderLength]", "eihCiphers[i]", "eihPSKHashes[i][:]", "eihPSKHashes[i]", "if len(excessPayload) > 0"]
-/-- panic-relevant fingerprint of ss2022.PutTCPRequestVariableLengthHeader -/
-def PutTCPRequestVariableLengthHeader_shape : List String := ["call PutUint16", "b[n:]", "b[n:]"]
-/-- panic-relevant fingerprint of direct.(*DirectPacketClientPacker).PackInPlace -/
-def DirectClientPack_shape : List String := ["call .IPPort", "if packetLen > maxPacketLen"]
-/-- panic-relevant fingerprint of direct.(*ShadowsocksNonePacketClientPacker).PackInPlace -/
-def NoneClientPack_shape : List String := ["if packetLen > p.maxPacketSize", "b[packetStart:]"]
-/-- panic-relevant fingerprint of direct.(ShadowsocksNonePacketServerPacker).PackInPlace -/
-def NoneServerPack_shape : List String := ["if packetLen > maxPacketLen", "b[packetStart:]"]
-/-- panic-relevant fingerprint of direct.(*Socks5PacketClientPacker).PackInPlace -/
-def Socks5ClientPack_shape : List String := ["if packetLen > p.maxPacketSize", "b[packetStart:]", "b[packetStart+3:]"]
-/-- panic-relevant fingerprint of direct.(Socks5PacketServerPacker).PackInPlace -/
-def Socks5ServerPack_shape : List String := ["if packetLen > maxPacketLen", "b[packetStart:]", "b[packetStart+3:]"]
-/-- panic-relevant fingerprint of socks5.WriteAddrFromConnAddr -/
-def WriteAddrFromConnAddr_shape : List String := ["call .IPPort", "call .Domain", "b[0]", "b[1]", "b[2:]", "call PutUint16", "b[1+1+len(domain):]"]
-/-- panic-relevant fingerprint of socks5.WriteAddrFromAddrPort -/
-def WriteAddrFromAddrPort_shape : List String := ["b[0]", "conv (*[4]byte)", "b[1:]", "b[0]", "conv (*[16]byte)", "b[1:]", "call PutUint16", "b[n-2:]"]
-/-- panic-relevant fingerprint of socks5.LengthOfAddrFromConnAddr -/
-def LengthOfAddrFromConnAddr_shape : List String := ["call .IPPort", "call .Domain", "if len(domain) > 255 => return", "panic"]
-/-- panic-relevant fingerprint of zerocopy.UDPRelayHeadroom -/
-def UDPRelayHeadroom_shape : List String := []
-/-- panic-relevant fingerprint of zerocopy.MaxPacketSizeForAddr -/
-def MaxPacketSizeForAddr_shape : List String := ["if mtu > 65575 => return"]
-/-- panic-relevant fingerprint of dns.(*resultBuilder).parseMsg -/
-def dnsParseMsg_shape : List String := ["r.a[:0]", "r.aaaa[:0]"]
-/-- panic-relevant fingerprint of dns.(*Resolver).doTCP -/
-def dnsDoTCP_shape : List String := ["call Uint16"]
-/-- panic-relevant fingerprint of dns.(*Resolver).sendQueries -/
-def dnsSendQueries_shape : List String := ["qBuf[2:2]", "qBuf[q6PktStart:q6PktStart]", "qBuf[:2]", "qBuf[q4PktEnd:q6PktStart]", "call PutUint16", "call PutUint16", "qBuf[:q6PktEnd]"]
-/-- panic-relevant fingerprint of httpproxy.ClientConnect -/
-def httpClientConnect_shape : List String := ["if resp.StatusCode < 200 || resp.StatusCode >= 300 => return", "if br.Buffered() > 0 => return"]
-/-- panic-relevant fingerprint of portset.(*PortSet).Contains -/
-def PortSetContains_shape : List String := ["s.blocks[s.blockIndex(p)]"]
-/-- panic-relevant fingerprint of portset.panicOnZeroPort -/
-def panicOnZeroPort_shape : List String := ["panic"]
-/-- panic-relevant fingerprint of portset.(PortRangeSet).Contains -/
-def PortRangeSetContains_shape : List String := ["case port > s.ranges[h].To", "s.ranges[h]", "case port < s.ranges[h].From", "s.ranges[h]"]
-/-- panic-relevant fingerprint of router.(SourcePortCriterion).Meet -/
-def SourcePortMeet_shape : List String := []
-/-- panic-relevant fingerprint of router.(SourcePortRangeSetCriterion).Meet -/
-def SourcePortRangeSetMeet_shape : List String := ["call .Contains"]
-/-- panic-relevant fingerprint of router.(*SourcePortSetCriterion).Meet -/
-def SourcePortSetMeet_shape : List String := ["call .Contains"]
-/-- panic-relevant fingerprint of router.(DestPortCriterion).Meet -/
-def DestPortMeet_shape : List String := []
-/-- panic-relevant fingerprint of router.(DestPortRangeSetCriterion).Meet -/
-def DestPortRangeSetMeet_shape : List String := ["call .Contains"]
-/-- panic-relevant fingerprint of router.(*DestPortSetCriterion).Meet -/
-def DestPortSetMeet_shape : List String := ["call .Contains"]
-/-- panic-relevant fingerprint of router.(DestDomainCriterion).Meet -/
-def DestDomainMeet_shape : List String := ["call .Domain"]
-/-- panic-relevant fingerprint of router.(*DestIPCriterion).Meet -/
-def DestIPMeet_shape : List String := ["call .Contains", "call .IP"]
-/-- panic-relevant fingerprint of router.(DestResolvedIPCriterion).Meet -/
-def DestResolvedIPMeet_shape : List String := ["call .Contains", "call .IP", "call .Domain"]
-/-- panic-relevant fingerprint of router.(*Router).match -/
-def RouterMatch_shape : List String := ["r.routes[i]", "r.routes[i]", "panic"]
-/-- panic-relevant fingerprint of router.(*Route).Match -/
-def RouteMatch_shape : List String := []
-/-- router.*SourcePortSetCriterion.Meet checks the port against 0 before PortSet.Contains -/
-def sourcePortSetMeetGuardsZero : Bool := true
-/-- router.*DestPortSetCriterion.Meet checks the port against 0 before PortSet.Contains -/
-def destPortSetMeetGuardsZero : Bool := true
-/-- ss2022.*ShadowPacketClientPacker.PackInPlace: every mrand.IntN(x) is under a condition with the conjunct `x > 0` -/
-def clientPackerGuardsIntN : Bool := true
-/-- ss2022.*ShadowPacketServerPacker.PackInPlace: every mrand.IntN(x) is under a condition with the conjunct `x > 0` -/
-def serverPackerGuardsIntN : Bool := true
-/-- every call of (*ShadowStreamConn).readChunk is inside (*ShadowStreamConn).read -/
-def readChunkOnlyCalledFromRead : Bool := true
-/-- service.(*ServerConfig).Initialize/UDPRelay returns an error for direct + TunnelUDPTargetOnly + non-IP TunnelRemoteAddress -/
-def directRejectsTargetOnlyDomain : Bool := true
-/-- portset.(*PortSet).Contains calls panicOnZeroPort -/
-def portSetContainsPanicsOnZero : Bool := true
-end SSV.Gen.C06
+-- generation failed: ss2022: function *ShadowStreamConn.readChunk not found
+#exit_gen_broken
